@@ -20,6 +20,9 @@ func genCase(t *rapid.T) Case {
 	c := Case{}
 	nq := rapid.IntRange(1, 4).Draw(t, "nqueries")
 	c.Cfg.Table.Q = map[string]script.Outcome{}
+	if rapid.IntRange(0, 19).Draw(t, "default-limit?") != 0 {
+		c.Cfg.SetLimit, c.Cfg.Limit = true, 1<<16 // the 16 MiB default buffer makes a case ~20x slower
+	}
 	keys := gen.QueryNames[:nq]
 	for _, k := range keys {
 		c.Cfg.Table.Q[k] = gen.Outcome(gen.SimpleTypes, 5, 6, 10).Draw(t, "outcome")
